@@ -17,13 +17,15 @@ import (
 )
 
 type shapeType struct {
-	K   string      `json:"k"`
-	N   int         `json:"n,omitempty"`
-	F   []shapeType `json:"f,omitempty"`
-	M   []shapeType `json:"m,omitempty"`
-	E   *shapeType  `json:"e,omitempty"`
-	Key *shapeType  `json:"key,omitempty"`
-	Val *shapeType  `json:"val,omitempty"`
+	K    string      `json:"k"`
+	N    int         `json:"n,omitempty"`
+	Name string      `json:"name,omitempty"` // fixed-width primitive
+	Ws   []int       `json:"ws,omitempty"`   // ... and its legal widths
+	F    []shapeType `json:"f,omitempty"`
+	M    []shapeType `json:"m,omitempty"`
+	E    *shapeType  `json:"e,omitempty"`
+	Key  *shapeType  `json:"key,omitempty"`
+	Val  *shapeType  `json:"val,omitempty"`
 	// union: zed.Context orders the member types canonically; perm[i] is the real tag of the spec's member i
 	perm []int
 }
@@ -31,6 +33,7 @@ type shapeType struct {
 type shapeBody struct {
 	K    string      `json:"k"`
 	N    int         `json:"n,omitempty"`
+	Len  int         `json:"len,omitempty"` // k = "bytes": a primitive body of Len bytes
 	Es   []shapeBody `json:"es,omitempty"`
 	Over bool        `json:"over,omitempty"`
 }
@@ -46,6 +49,12 @@ func (t *shapeType) build(zctx *zed.Context) (zed.Type, error) {
 	switch t.K {
 	case "int":
 		return zed.TypeInt64, nil
+	case "fixed":
+		typ := zed.LookupPrimitive(t.Name)
+		if typ == nil {
+			return nil, fmt.Errorf("shape: no primitive type %q", t.Name)
+		}
+		return typ, nil
 	case "enum":
 		var syms []string
 		for i := 0; i < t.N; i++ {
@@ -122,6 +131,8 @@ func encodeBody(v *shapeBody, t *shapeType) []byte {
 	switch v.K {
 	case "null":
 		return nil
+	case "bytes":
+		return make([]byte, v.Len) // non-nil also for Len 0
 	case "leaf":
 		if t.K == "selector" {
 			// a union selector: in-range values name the spec's member, translated to the real tag
@@ -212,6 +223,7 @@ func checkShapes(c *core.Ctx, rows []shapeRow) ([]Case, error) {
 		}
 		switch {
 		case !r.Consistent && realErr == nil:
+			saveKnownWitness(c, "validate-accepts:"+r.Why, fmt.Sprintf("zed.Value.Validate accepts type %s body %x (%s)", r.Type.text(), body, r.Why), w)
 			c.Violate("validate-accepts:"+r.Why, fmt.Sprintf("zed.Value.Validate accepts a value that is not structurally consistent with its type (%s): type %s, body bytes %x", r.Why, r.Type.text(), body), w)
 		case r.Consistent && realErr != nil:
 			c.Drift("shape: Validate rejects a value the spec calls consistent: type %s body %x: %v", r.Type.text(), body, realErr)
